@@ -145,6 +145,22 @@ func c08Judge(src []byte, mk func(fset *token.FileSet, af *ast.File) (resolver.D
 	if !bytes.Equal(buf.Bytes(), src) {
 		return "transparent-bytes-differ", diffAt(src, buf.Bytes()), paths, df
 	}
+	// a copy of the tree is still "nothing changed": dst.Clone is the one legal way to use a decorated
+	// node a second time, and what the decorator stored on a collapsed pkg.Name has to come along
+	var cl *dst.File
+	var cbuf bytes.Buffer
+	if msg := guard(func() {
+		cl = dst.Clone(df).(*dst.File)
+		err = decorator.NewRestorerWithImports(local, rr).Fprint(&cbuf, cl)
+	}); msg != "" {
+		return "transparent-panic", "restore of a clone: " + msg, paths, df
+	}
+	if err != nil {
+		return "transparent-restore-error", "clone: " + err.Error(), paths, df
+	}
+	if !bytes.Equal(cbuf.Bytes(), src) {
+		return "transparent-bytes-differ", "a dst.Clone of the decorated file: " + diffAt(src, cbuf.Bytes()), paths, df
+	}
 	return "", "", paths, df
 }
 
